@@ -2,7 +2,7 @@
    Only statements + `exact` + Print Assumptions live here. Model: C16_Defs (imports the kernels
    translated from include/nano/tensor/{dims,tensor}.h on every run). *)
 From Coq Require Import List ZArith Bool.
-From LN Require Import C16_Defs C16_Statements.
+From LN Require Import C16_Defs C16_Statements C16_Integral.
 Import ListNotations.
 Local Open Scope Z_scope.
 
@@ -90,9 +90,18 @@ Theorem C16_gather : forall (n : Z) (r : dims) (flat : list Z) idx i rest dflt,
 Proof. exact (@s_gather Z). Qed.
 Print Assumptions C16_gather.
 
+(* the summed-area table (integral.h) equals the naive prefix sums: entry i is the sum of the input over all
+   indices dominated by i *)
+Theorem C16_integral_prefix_sums : forall d flat i,
+  Forall (fun x => 0 < x) d -> d <> [] -> Z.of_nat (length flat) = size d -> validb d i = true ->
+  nth (Z.to_nat (offset d i)) (integral d flat) 0 = naive_integral_at d flat i.
+Proof. exact integral_is_prefix_sums. Qed.
+Print Assumptions C16_integral_prefix_sums.
+
 (* non-vacuity: a concrete rank-3 tensor meets the hypotheses *)
 Example C16_nonvacuous :
   validb [3; 4; 5] [2; 3; 4] = true /\ offset [3; 4; 5] [2; 3; 4] = 59 /\
   unoffset [3; 4; 5] 59 = [2; 3; 4] /\ view_tensor [3; 4; 5] [2; 3] = (55, [5]) /\
-  reshape [3; 4; 5] [6; -1] = [6; 10] /\ slice_validb [3; 4; 5] 1 3 = true.
+  reshape [3; 4; 5] [6; -1] = [6; 10] /\ slice_validb [3; 4; 5] 1 3 = true /\
+  integral [2; 3] [1; 2; 3; 4; 5; 6] = [1; 3; 6; 5; 12; 21].
 Proof. vm_compute. repeat split; reflexivity. Qed.
